@@ -190,7 +190,7 @@ def main(argv: t.Optional[t.List[str]] = None) -> int:
         if known.is_open(prop_id, key):
             known_hit[key] += bucket_counts[(pname, key)]
             continue
-        if not args.no_shrink and shrunk < 6:
+        if not args.no_shrink and shrunk < 6 and prop.part(pname).shrinkable[args.tier]:
             cap = 45.0 if args.tier == "quick" else 240.0
             try:
                 case, d2 = engine.shrink_bucket(prop_id, pname, args.tier, sseed, key, case, cap)
